@@ -103,19 +103,25 @@ class Adapter:
                 out[f] = None
         return out
 
-    def load_safe(self, f, data):
-        """projection of what the real loader returns, ("absent",) for a missing file, ("unloadable", why) on failure"""
+    def load_safe(self, f, data, inplace=False):
+        """projection of what the real loader returns, ("absent",) for a missing file, ("unloadable", why) on failure;
+        inplace: data is what the live file holds right now (the loader may read the live file itself)"""
         if data is None:
             return ("absent",)
+        self._inplace = self.path[f] if inplace else None
         try:
             return ("ok", json.dumps(self.load(f, data), sort_keys=True, default=str))
         except Exception as e:
             return ("unloadable", "%s: %s" % (type(e).__name__, str(e)[:120]))
+        finally:
+            self._inplace = None
 
     def want_safe(self, f):
         return ("ok", json.dumps(self.want(f), sort_keys=True, default=str))
 
     def _tmpfile(self, data, name):
+        if getattr(self, "_inplace", None):
+            return self._inplace
         d = os.path.join(self.scratch, "load_" + self.name)
         os.makedirs(d, exist_ok=True)
         p = os.path.join(d, name)
@@ -316,7 +322,7 @@ class OutputAd(Adapter):
             cfg.read_file(fh)
         return {s: dict(cfg.items(s)) for s in cfg.sections()}
 
-    def load_safe(self, f, data):
+    def load_safe(self, f, data, inplace=False):
         # output.json is derived from output.txt; a listing that does not exist yet and an empty listing both say
         # "no key output so far" (the agent writes {} when output.txt is absent): one version, not two
         return super().load_safe(f, data if data is not None else (b"{}" if f.endswith(".json") else b""))
@@ -728,7 +734,7 @@ def run_history(ad, hist):
     if last_ok is None:
         return "nothing-committed"
     disk = ad.disk()
-    got = {f: ad.load_safe(f, disk[f]) for f in ad.files}
+    got = {f: ad.load_safe(f, disk[f], inplace=True) for f in ad.files}
     return want, got, info
 
 
